@@ -35,6 +35,7 @@ import Proofs.FitValid
 import Proofs.FitPayload
 import Proofs.FitAround
 import Proofs.FitOpen
+import Proofs.FitNoRaise
 import Proofs.JoinSuccess
 import Proofs.Placement
 import Props.C01
@@ -1588,6 +1589,22 @@ example :
     textStableC S = true ∧ S.closableB = true ∧ S.checkNode doc = true ∧ S.nodeAttrsOK doc = true ∧
     sl.looseValid S = true ∧ unplacedWfRun S doc 2 2 sl = true ∧ fitsTriviallyO S doc 2 2 sl = some false ∧
     sl2.looseValid S = true := by decide +kernel
+
+/-- **`fit_no_raise_partial`** — towards `fit_no_raise` (`replaceStep ≠ .error .raises`, not proved): an iteration of the loop
+    of `fit` whose state is in step and whose unplaced slice is well-formed can fail **only inside `place_nodes`**:
+    `find_fittable` (both passes: `fill_before`, `find_wrapping`, the walks along the start spine), `open_more` and
+    `drop_node` always return (Proofs/FitNoRaise.lean).  What is missing for `fit_no_raise`: inside `place_nodes` the two
+    sites that do raise in the real code for some valid requests — `fill_before` answering `None` in `close_node_start`
+    and `content_match_at(child_count)` on the node whose open end is pushed (finding C11-fitter-partial-node) — need
+    guards on the request (`Slice.noPartialNode` for the second) carried along the run. -/
+theorem fit_no_raise_partial (S : Schema) (hdet : detB S = true) (hfill : S.fillersOKB = true) (st : FitState)
+    (hin : st.inStepB = true) (hwf : st.unplaced.wf = true) (e : FitErr) (h : fitStep S st = .error e) :
+    ∃ f, findFittable S st = .ok (some f) ∧ placeNodes S st f = .error e := by
+  simp only [FitState.inStepB, Bool.and_eq_true, Bool.not_eq_eq_eq_not, Bool.not_true, List.all_eq_true,
+    decide_eq_true_eq] at hin
+  simp only [Slice.wf, Bool.and_eq_true, decide_eq_true_eq] at hwf
+  exact fitStep_raises_in_place S (detS_of_detB S hdet) (fillersOK_of_B S hfill) st
+    (fun it hit => Option.isSome_iff_exists.1 (hin.1.2 it hit)) hwf.1 e h
 
 /-- **`coherent_invariant`** — the key invariant `FitState.coherentB` (with the ghost level) is an invariant
     of the loop of `fit` (Proofs/FitCoherent.lean, `Coh` = the proposition behind the Boolean):
